@@ -130,6 +130,7 @@ type CacheSim struct {
 	mu    sync.Mutex
 	pages map[string]map[int64][]byte // db name -> offset -> cached bytes
 	// OnPos is called inside every position change (DB.setPos), i.e. at LiteFS's own linearisation point.
+	OnSHM func(db *litefs.DB) // called inside InvalidateSHM
 	OnPos func(db *litefs.DB)
 	// Entries counts InvalidateEntry calls by name.
 	Entries map[string]int
@@ -155,7 +156,14 @@ func (c *CacheSim) InvalidateDBRange(db *litefs.DB, offset, size int64) error {
 	c.mu.Unlock()
 	return nil
 }
-func (c *CacheSim) InvalidateSHM(db *litefs.DB) error { return nil }
+// InvalidateSHM: the kernel drops its cached pages of the -shm file. A page that a client has dirtied through its
+// mapping is written back first (that is what OnSHM plays, if set).
+func (c *CacheSim) InvalidateSHM(db *litefs.DB) error {
+	if f := c.OnSHM; f != nil {
+		f(db)
+	}
+	return nil
+}
 func (c *CacheSim) InvalidatePos(db *litefs.DB) error {
 	if f := c.OnPos; f != nil {
 		f(db)
